@@ -16,7 +16,8 @@ def cmpById : String → Option UCmp
   | "reverse"  => some ⟨revCompare, fun _ _ => none, fun _ => none⟩
   | "lenfirst" => some ⟨lenCompare, fun _ _ => none, fun _ => none⟩
   | "nilsep"   => some ⟨bytesCompare, fun _ _ => none, fun _ => none⟩
-  | "unshort"  => some ⟨bytesCompare, fun a _ => some a, fun b => some b⟩
+  | "unshort"  => some ⟨bytesCompare, fun a _ => if a.isEmpty then none else some a,
+                       fun b => if b.isEmpty then none else some b⟩  -- Go: append(nil, []...) is nil
   | _ => none
 
 def optHex : Option Bytes → String | some b => toHexField b | none => "nil"
